@@ -178,10 +178,40 @@ def _c05_growing_architecture(seed):
     return out
 
 
+def _c05_redundant_listing(seed):
+    """A layer that lists a package AND some of its sub modules (a redundant but legal listing); other children of the package are not listed: they belong to
+    the layer through the package, wherever their names sort relative to the listed siblings (seed C03o: a lookup that gave up at the first listed sibling)."""
+    rng = random.Random(seed)
+    mods = LTREE + ["r.a.y", "r.a.y.q", "r.a.m", "r.b.w", "r.b.a"]
+    cand = [(a, c) for a in mods for c in mods if a != c and "." in a and "." in c and not a.startswith(c + ".") and not c.startswith(a + ".")]
+    imports = rng.sample(cand, rng.randint(1, 7))
+    arch = build_arch(mods, imports)
+    listed_a = ["r.a"] + rng.sample(["r.a.x", "r.a.y", "r.a.m", "r.a.x.p"], rng.randint(1, 2))
+    listed_b = ["r.b"] + rng.sample(["r.b.x", "r.b.w", "r.b.a"], rng.randint(0, 2))
+    rng.shuffle(listed_a)
+    rng.shuffle(listed_b)
+    defs = [("A", ("names", listed_a)), ("B", ("names", listed_b)), ("C", ("names", ["r.c"]))]
+    rng.shuffle(defs)
+    lay = layer_sets(mods, defs)
+    names = [n for n, _ in defs]
+    out = []
+    shapes = [(v, a, e) for v in ("should", "should_only", "should_not") for a in (True, False) for e in (False, True)]
+    for subject in names:
+        objects = rng.sample([n for n in names if n != subject], rng.randint(1, 2))
+        for verb, acc, exc in shapes:
+            kind_, msg = outcome(layer_rule(make_architecture(defs), subject, verb, acc, exc, objects), arch)
+            want = doc_layer_verdict(mods, imports, lay, subject, verb, acc, exc, objects)
+            if kind_ == "error" or (kind_ == "pass") != want:
+                out.append(dict(case="redundant-listing", detail=f"layers {defs} (a package listed together with some of its sub modules), imports {imports}: {subject} {verb} access={acc} except={exc} {objects}: "
+                                f"real {kind_} ({msg}); documented semantics say {'pass' if want else 'fail'}", input=dict(kind="c05-redundant", seed=seed)))
+                return out
+    return out
+
+
 def bounded_layer_verdicts(tier, seed):
     b = Bounded("C05.layer-verdict-vs-documented-semantics", "12-module tree with prefix-named siblings (r.a / r.ab) and 3 levels; import relations: all with <=1 import + 60/4000 random (2-8 imports); per graph 3 (quick) / 6 "
                 "random partitions of unrelated modules into 2-4 layers (name lists, regex, mixed; some modules in no layer; layers the rule does not mention) x 12 access shapes x 1-2 object layers + the two "
-                "'any layer' aliases")
+                "'any layer' aliases; 40/5000 growing architectures; 60/3000 architectures whose layers list a package together with some of its sub modules (x 3 subjects x 12 shapes)")
     rng = random.Random(seed)
     rels = import_relations(LTREE, rng, n_random=(60 if tier == "quick" else 4000), exhaustive_upto=1)
     rng.shuffle(rels)
@@ -194,6 +224,10 @@ def bounded_layer_verdicts(tier, seed):
         b.case()
         for v in res:
             b.violation(v["case"], v["detail"], v["input"])
+    for res in pmap(_c05_redundant_listing, [seed * 7919 + i for i in range(60 if tier == "quick" else 3000)]):
+        b.case()
+        for v in res:
+            b.violation(v["case"], v["detail"], v["input"])
     b.samples.append(dict(layers=[["L0", ["names", ["r.a"]]], ["L1", ["regex", r"(r\.b)$"]]], rule="L0 should_only access L1"))
     return b.result()
 
@@ -202,6 +236,9 @@ def rerun_c05(inp):
     if inp.get("kind") == "c05-grow":
         res = _c05_growing_architecture(inp["seed"])
         return (not res), ("; ".join(v["detail"] for v in res) or "verdicts follow the documented semantics at every stage")
+    if inp.get("kind") == "c05-redundant":
+        res = _c05_redundant_listing(inp["seed"])
+        return (not res), ("; ".join(v["detail"] for v in res) or "verdicts follow the documented semantics for every subject and shape")
     mods = LTREE
     imports = [tuple(p) for p in inp["imports"]]
     defs = [(n, (d[0], d[1])) for n, d in inp["defs"]]
